@@ -649,6 +649,11 @@ func symSprintf(fr *frame, f string, args []value) value {
 				g, _ := goArg(fr, a)
 				out = append(out, valuesOf([]byte(fmt.Sprintf("%c", g)))...)
 			}
+		case (verb == 'X' || verb == 'x') && isSymInt(a):
+			out = append(out, symHex(fr, a.(sv), verb == 'X')...)
+		case verb == 'd' && isSymInt(a):
+			n := fr.concretizeBinary(a.(sv))
+			out = append(out, valuesOf([]byte(strconv.FormatInt(n, 10)))...)
 		default:
 			g, ok := goArg(fr, a)
 			if !ok {
@@ -894,6 +899,8 @@ func regStd() {
 			}
 			return strconv.FormatFloat(f, a[1].(uint8), int(asInt64(a[2])), int(asInt64(a[3])))
 		},
+		"internal/stringslite.Clone": func(fr *frame, a []value) value { return a[0] },
+		"strings.Clone":              func(fr *frame, a []value) value { return a[0] },
 		"strconv.Itoa": func(fr *frame, a []value) value {
 			n, ok := a[0].(int)
 			if !ok {
@@ -1331,4 +1338,133 @@ func nativeIte(fr *frame, a []value) value {
 	k := kindOf(a[1])
 	im := isIntMode(a[1], a[2])
 	return mkScalar(sym.Ite(a[0].(sv).T, termOf(a[1], im), termOf(a[2], im)), k)
+}
+
+func isSymInt(a value) bool {
+	s, ok := a.(sv)
+	return ok && kindIsInt(s.K) && s.T.Sort.K == sym.KBV
+}
+
+// symHex formats a non-negative symbolic integer in hexadecimal: the number of
+// digits is decided by forking, each digit is a term.
+func symHex(fr *frame, v sv, upper bool) []value {
+	t := v.T
+	w := t.Sort.W
+	if kindSigned(v.K) {
+		if fr.decide(sym.BVCmp(sym.OBVSlt, t, sym.BVConst(w, 0))) {
+			panic(pathEnd{status: stUnsupported, detail: "hex formatting of a negative symbolic integer"})
+		}
+	}
+	nd := 1
+	for nd < w/4 {
+		lim := sym.BVConst(w, uint64(1)<<uint(4*nd))
+		if fr.decide(sym.BVCmp(sym.OBVUlt, t, lim)) {
+			break
+		}
+		nd++
+	}
+	base := uint64('a')
+	if upper {
+		base = 'A'
+	}
+	out := make([]value, nd)
+	for k := 0; k < nd; k++ {
+		nib := sym.Extract(4*(nd-1-k)+3, 4*(nd-1-k), t)
+		n8 := sym.ZeroExt(4, nib)
+		ch := sym.Ite(sym.BVCmp(sym.OBVUlt, n8, u8(10)), sym.BVBin(sym.OBVAdd, n8, u8('0')), sym.BVBin(sym.OBVAdd, n8, u8(base-10)))
+		out[k] = mkScalar(ch, types.Uint8)
+	}
+	return out
+}
+
+// concretizeBinary forks on the value of v by binary search (deterministic decision order).
+func (fr *frame) concretizeBinary(v sv) int64 {
+	w := v.T.Sort.W
+	signed := kindSigned(v.K)
+	var lo, hi int64
+	if signed {
+		lo, hi = -(int64(1) << uint(w-1)), int64(1)<<uint(w-1)-1
+		if w == 64 {
+			lo, hi = math.MinInt64, math.MaxInt64
+		}
+	} else {
+		lo, hi = 0, int64(1)<<uint(w)-1
+		if w >= 63 {
+			hi = math.MaxInt64
+			if fr.decide(sym.BVCmp(sym.OBVSlt, v.T, sym.BVConst(w, 0))) {
+				panic(pathEnd{status: stUnsupported, detail: "concretising a huge unsigned value"})
+			}
+		}
+	}
+	for lo < hi {
+		mid := lo + (hi-lo)/2
+		var c *sym.Term
+		if signed {
+			c = sym.BVCmp(sym.OBVSle, v.T, sym.BVConst(w, uint64(mid)))
+		} else {
+			c = sym.BVCmp(sym.OBVUle, v.T, sym.BVConst(w, uint64(mid)))
+		}
+		if fr.decide(c) {
+			hi = mid
+		} else {
+			lo = mid + 1
+		}
+	}
+	return lo
+}
+
+func runeSetTerm(set string, r value) (*sym.Term, bool) {
+	switch r := r.(type) {
+	case int32:
+		return sym.BoolConst(strings.ContainsRune(set, r)), true
+	case sv:
+		if r.T.Sort.K != sym.KBV || r.T.Sort.W != 32 {
+			return nil, false
+		}
+		var alts []*sym.Term
+		for _, c := range set {
+			alts = append(alts, sym.Eq(r.T, sym.BVConst(32, uint64(uint32(c)))))
+		}
+		return sym.Or(alts...), true
+	}
+	return nil, false
+}
+
+func init() {
+	regExt(map[string]externalFn{
+		"strings.ContainsRune": func(fr *frame, a []value) value {
+			if set, ok := a[0].(string); ok {
+				if t, ok := runeSetTerm(set, a[1]); ok {
+					return mkScalar(t, types.Bool)
+				}
+			}
+			return fallThrough{}
+		},
+		"bytes.ContainsRune": func(fr *frame, a []value) value {
+			if b, ok := a[0].([]value); ok && seqIsConcrete(b) {
+				if t, ok := runeSetTerm(string(bytesOf(b)), a[1]); ok {
+					return mkScalar(t, types.Bool)
+				}
+			}
+			return fallThrough{}
+		},
+		"strings.Repeat": func(fr *frame, a []value) value {
+			n, ok := fr.concretize(a[1], 0, 64)
+			if !ok {
+				if s, isS := a[1].(sv); isS {
+					if fr.decide(sym.BVCmp(sym.OBVSlt, s.T, sym.BVConst(s.T.Sort.W, 0))) {
+						panic(targetPanic{iface{t: types.Typ[types.String], v: "strings: negative Repeat count"}})
+					}
+					panic(pathEnd{status: stUnsupported, detail: "strings.Repeat with a symbolic count above 64"})
+				}
+				return fallThrough{}
+			}
+			b := strBytes(a[0])
+			out := make([]value, 0, len(b)*int(n))
+			for k := int64(0); k < n; k++ {
+				out = append(out, b...)
+			}
+			return mkStr(out)
+		},
+	})
 }
